@@ -160,7 +160,7 @@ func runC02Preexisting(rc *Recorder, dir string, rng *rand.Rand) error {
 	if err != nil {
 		return err
 	}
-	defer func() { w.closeReader(); w.app.Close() }()
+	defer func() { w.closeReader(); w.closeWT(false); w.closeWTConn(); w.app.Close() }()
 	if err := setupVersionTables(w.app); err != nil {
 		return err
 	}
@@ -227,7 +227,7 @@ func runC02ShrinkSnapshot(rc *Recorder, dir string, rng *rand.Rand) error {
 	if err != nil {
 		return err
 	}
-	defer func() { w.closeReader(); w.app.Close() }()
+	defer func() { w.closeReader(); w.closeWT(false); w.closeWTConn(); w.app.Close() }()
 	w.ldb = w.newLitestream()
 	if err := w.ldb.Open(); err != nil {
 		return err
@@ -276,7 +276,7 @@ func runC02Injected(rc *Recorder, dir string, rng *rand.Rand, steps int) error {
 		return err
 	}
 	w.trace = append(w.trace, "C02 injected commits; ops:")
-	ops := []string{"S", "S", "S", "RS", "SW", "CK-PASSIVE", "CK-FULL", "CK-RESTART", "CK-TRUNCATE", "SNAP", "SNAP", "CMP", "APP", "APP", "APP", "LR+", "LR-"}
+	ops := []string{"S", "S", "S", "RS", "SW", "CK-PASSIVE", "CK-FULL", "CK-RESTART", "CK-TRUNCATE", "SNAP", "SNAP", "CMP", "APP", "APP", "APP", "LR+", "LR-", "WT+", "WT-", "WTR"}
 	for i := 0; i < steps+10; i++ {
 		op := ops[rng.Intn(len(ops))]
 		if op == "APP" {
@@ -302,6 +302,9 @@ func runC02Injected(rc *Recorder, dir string, rng *rand.Rand, steps int) error {
 
 // everyTXIDOracle evaluates C02's statement on the replica as it stands.
 func (w *World) everyTXIDOracle(rc *Recorder, logical bool) {
+	if _, err := os.Stat(w.replicaDir); os.IsNotExist(err) {
+		return // nothing was ever uploaded
+	}
 	all, l0 := replicaTXIDs(w.replicaDir)
 	for i, t := range l0 {
 		if t != uint64(i)+1 {
@@ -427,7 +430,7 @@ func runC02(rc *Recorder, dir string, rng *rand.Rand, steps int) error {
 	if err != nil {
 		return err
 	}
-	defer func() { w.closeReader(); w.app.Close() }()
+	defer func() { w.closeReader(); w.closeWT(false); w.closeWTConn(); w.app.Close() }()
 	if err := setupVersionTables(w.app); err != nil {
 		return err
 	}
